@@ -8,6 +8,12 @@
 
 using namespace asmjit;
 
+namespace lbl {
+template<typename E> static uint32_t oneshot_reference(Arch arch, const std::string& kind);
+template<typename E> static uint32_t read_and_clear_oneshot(E& e);
+template<typename E> static void arm_oneshot_state(E& e, bool with_options_and_extra);
+}
+
 struct ScriptThrow { Error err; };
 struct Handler : public ErrorHandler {
   int calls = 0;
@@ -43,6 +49,8 @@ struct Script {
   uint64_t ops = 0;
   bool is_a64;
   bool threw = false;             // the last guarded call left through the throwing handler
+  bool armed = false;             // one-shot instruction state armed before the call that is judged next
+  uint64_t steps = 0;
 
   // do_throw: the handler throws (every call is guarded); own: the handler is set on the emitter, not on the CodeHolder
   Script(Arch arch, uint64_t seed, bool do_throw = false, bool own = false) : env(arch), r(seed), is_a64(arch == Arch::kAArch64) {
@@ -73,6 +81,16 @@ struct Script {
     ops++;
     g_by_api[api]++;
     g_distinct.insert(std::string(api) + (err == Error::kOk ? ":ok" : ":err" + std::to_string(unsigned(err))));
+    uint32_t left = armed ? lbl::read_and_clear_oneshot(a) : 0u;
+    if (err != Error::kOk && armed) {
+      // a failed call clears the one-shot state - as far as a successful call of the same kind does (reference on a fresh Assembler)
+      uint32_t ref = lbl::oneshot_reference<ASM>(env.arch(), api);
+      g_by_api["script.oneshot.armed-failing-calls"]++;
+      static const char* const names[3] = { "inline-comment", "inst-options", "extra-reg" };
+      if (ref != 0x100) for (uint32_t c = 0; c < 3; c++) if ((ref & (1u << c)) && (left & (1u << c)))
+        fail(std::string(api) + ":one-shot-" + names[c] + "-left", std::string(api) + "(" + arg + ") failed with " + std::to_string(unsigned(err)) + " but the one-shot " + names[c] + " armed before the call is still set (a successful " + api + " clears it)");
+    }
+    armed = false;
     if (err != Error::kOk) {
       Snap after = snap();
       std::string what = std::string(api) + "(" + arg + ") failed with " + std::to_string(unsigned(err));
@@ -115,6 +133,8 @@ struct Script {
     uint64_t k = r.below(100);
     Snap s = snap();
     char buf[128];
+    // every second call that goes through judge() finds the one-shot instruction state armed
+    if ((++steps & 1) == 0 && ((k >= 12 && k < 74) || (k >= 90 && k < 94))) { lbl::arm_oneshot_state(a, true); armed = true; }
     if (k < 12) {
       Label l = a.new_label();
       g_by_api["new_label"]++; ops++;
@@ -345,6 +365,64 @@ template<typename F> static CallResult guarded(F&& f) {
 
 static uint64_t g_calls = 0, g_scenarios = 0, g_twin_compared = 0, g_twin_skipped = 0, g_twin_finalize_failed = 0;
 
+// ---- one-shot instruction state (inline comment, instruction options, extra register) around failing NON-instruction calls.
+// "A failed call clears the one-shot instruction state" - measured against the code's own contract: what a SUCCESSFUL call of the same
+// kind clears on a fresh emitter of the same type (reference, learned once per emitter type and call kind); a failing instruction must
+// clear all three. bit 0 = inline comment, bit 1 = instruction options, bit 2 = extra register.
+static const char kArmedComment[] = "c14 one-shot comment";
+static const uint32_t kArmedOptions = 0x2000u;
+template<typename E> static void arm_oneshot_state(E& e, bool with_options_and_extra) {
+  e.set_inline_comment(kArmedComment);
+  if (with_options_and_extra) {
+    e.set_inst_options(InstOptions(kArmedOptions));
+    if constexpr (EK<E>::a64) e.set_extra_reg(a64::x(1)); else e.set_extra_reg(x86::k(1));
+  }
+}
+template<typename E> static uint32_t read_and_clear_oneshot(E& e) {
+  uint32_t left = (e.inline_comment() != nullptr ? 1u : 0u) | (uint32_t(e.inst_options()) != 0 ? 2u : 0u) | (e.extra_reg().is_reg() ? 4u : 0u);
+  e.reset_inline_comment(); e.reset_inst_options(); e.reset_extra_reg();
+  return left;
+}
+static std::string oneshot_kind_of(const std::string& entry) {
+  if (entry.compare(0, 5, "inst.") == 0) return "inst";
+  if (entry.compare(0, 17, "embed_label_delta") == 0) return "embed_label_delta";
+  if (entry == "bind" || entry == "align" || entry == "embed" || entry == "embed_label" || entry == "embed_const_pool" || entry == "section" || entry == "embed_data_array") return entry;
+  return "";       // lookups, CodeHolder calls, label creation: not calls that emit
+}
+// what a successful call of `kind` clears (mask) on a fresh emitter of type E; 0x100 = the call did not succeed (no reference)
+template<typename E> static uint32_t oneshot_reference(Arch arch, const std::string& kind) {
+  static std::map<std::string, uint32_t> cache;
+  std::string key = std::string(EK<E>::name()) + (arch == Arch::kX86 ? "/32:" : ":") + kind;
+  auto it = cache.find(key);
+  if (it != cache.end()) return it->second;
+  uint32_t cleared = 0x100;
+  if (kind == "inst") cleared = 7;
+  else {
+    CodeHolder code; code.init(Environment(arch));
+    E e; code.attach(&e);
+    Label l1 = e.new_label(), l2 = e.new_label();
+    Arena arena(1024); ConstPool pool(arena); uint64_t v = 1; size_t off; (void)pool.add(&v, 8, Out(off));
+    Section* sec = nullptr; (void)code.new_section(Out(sec), ".ref", SIZE_MAX, SectionFlags::kNone, 8, 0);
+    static const uint8_t data[8] = { 1, 2, 3, 4, 5, 6, 7, 8 };
+    if (kind == "embed_label_delta") { (void)e.bind(l1); (void)e.bind(l2); }
+    arm_oneshot_state(e, true);
+    Error err = Error::kInvalidState;
+    if (kind == "bind") err = e.bind(l1);
+    else if (kind == "align") err = e.align(AlignMode::kCode, 16);
+    else if (kind == "embed") err = e.embed(data, 8);
+    else if (kind == "embed_data_array") err = e.embed_data_array(TypeId::kUInt8, data, 8, 1);
+    else if (kind == "embed_label") err = e.embed_label(l1, 0);
+    else if (kind == "embed_label_delta") err = e.embed_label_delta(l1, l2, 4);
+    else if (kind == "embed_const_pool") err = e.embed_const_pool(l1, pool);
+    else if (kind == "section") err = sec ? e.section(sec) : Error::kInvalidState;
+    if (err == Error::kOk) cleared = 7u & ~read_and_clear_oneshot(e);
+  }
+  cache[key] = cleared;
+  g_distinct.insert("lbl:oneshot-reference:" + key + ":successful-call-clears=" + std::to_string(cleared));
+  return cleared;
+}
+static const char* const kOneShotNames[3] = { "inline-comment", "inst-options", "extra-reg" };
+
 template<typename E>
 struct Scenario {
   typedef EK<E> K;
@@ -364,9 +442,12 @@ struct Scenario {
   bool late = false;            // last third of the scenario: argument kinds whose (known) acceptance ends the scenario are drawn only here
   unsigned name_counter = 0;
   uint64_t vops = 0;
+  unsigned bad_steps = 0;
+  bool armed = false;           // the one-shot state was armed before the invalid call that is judged next
+  Arch arch_;
 
   Scenario(Arch arch, uint64_t seed, bool with_bad_, bool do_throw, bool risky_)
-    : env(arch), pool_arena(4096), rv(seed * 2 + 1), rb(seed * 2 + 0x5EEDull), with_bad(with_bad_), risky(risky_), is64(arch != Arch::kX86) {
+    : env(arch), pool_arena(4096), rv(seed * 2 + 1), rb(seed * 2 + 0x5EEDull), with_bad(with_bad_), risky(risky_), is64(arch != Arch::kX86), arch_(arch) {
     code.init(env);
     eh.do_throw = do_throw;
     code.set_error_handler(&eh);
@@ -537,6 +618,8 @@ struct Scenario {
     g_calls++;
     g_by_api["lbl." + entry]++; g_by_api["lbl.kind." + badname]++; g_by_api[std::string("lbl.on.") + K::name()]++;
     if (eh.do_throw) g_by_api["lbl.with-throwing-handler"]++;
+    uint32_t left = 0; bool was_armed = armed;
+    if (armed) { left = read_and_clear_oneshot(e); armed = false; }
     LSnap a = snap();
     std::string what = emname() + (is64 || K::a64 ? "" : " (32-bit)") + ": " + entry + "(" + arg + ") with " + std::to_string(b.labels) + " labels, " + std::to_string(b.secs) + " sections defined";
     if (eh.do_throw) what += " [throwing handler]";
@@ -567,6 +650,20 @@ struct Scenario {
       else if (eh.calls != 1) violation(entry, "handler-called-more-than-once", badname, what + " and called the ErrorHandler " + std::to_string(eh.calls) + " times", false);
       else if (eh.last != cr.err) violation(entry, "handler-got-another-error", badname, what + " but the ErrorHandler received " + std::to_string(unsigned(eh.last)), false);
       if (eh.do_throw && eh.calls && !cr.threw) violation(entry, "exception-swallowed", badname, what + ": the handler threw but the call returned normally", false);
+    }
+    if (was_armed) {
+      std::string kind = oneshot_kind_of(entry);
+      if (!kind.empty()) {
+        uint32_t ref = oneshot_reference<E>(arch_, kind);
+        g_by_api["lbl.oneshot.armed-failing-calls"]++; g_by_api["lbl.oneshot.armed." + kind]++;
+        if (ref != 0x100) {
+          for (uint32_t c = 0; c < 3; c++) {
+            if (!(ref & (1u << c))) continue;                 // a successful call of this kind leaves it alone as well
+            g_by_api["lbl.oneshot.components-judged"]++;
+            if (left & (1u << c)) violation(entry, (std::string("one-shot-") + kOneShotNames[c] + "-left").c_str(), badname, what + " but the one-shot " + kOneShotNames[c] + " armed before the call is still set (a successful " + kind + " clears it)", false);
+          }
+        }
+      }
     }
     if (out_not_null) violation(entry, "output-set-on-failure", badname, what + " but stored a non-null result", false);
     if (a.bytes != b.bytes || a.total != b.total || a.off != b.off) violation(entry, "residue-bytes", badname, what + " but code bytes changed: section bytes " + std::to_string(b.total) + " -> " + std::to_string(a.total) + ", offset " + std::to_string(b.off) + " -> " + std::to_string(a.off), true);
@@ -614,6 +711,11 @@ struct Scenario {
   }
 
   void bad_step() {
+    bad_step_inner();
+    if (armed) { (void)read_and_clear_oneshot(e); armed = false; }      // (no call was made this time)
+  }
+
+  void bad_step_inner() {
     eh.calls = 0;
     LSnap b = snap();
     char arg[160];
@@ -621,6 +723,8 @@ struct Scenario {
     // alignment / size / type / repeat argument (the same refusal rules, on every emitter kind)
     uint64_t pick = rb.below(18);
     if (K::kind == K_ASM && (pick == 11 || pick == 12)) pick = 13 + rb.below(5);
+    // every second invalid call finds the one-shot instruction state armed (instructions: the comment only, their options mean something)
+    if ((++bad_steps & 1) == 0) { arm_oneshot_state(e, !(pick == 7 || pick == 8)); armed = true; }
     if (last_valid_was_align && rb.below(2) == 0) pick = 0;        // align + bind(invalid)
     if (pick == 0) {
       int kind = pick_bad_kind(true); Label l = bad_label(kind);
